@@ -20,7 +20,7 @@ func init() {
 		Run: runC18, Workers: 16, GOMAXPROCS: 4,
 		QuickTimeout: 6 * time.Minute, ThoroughTimeout: 30 * time.Minute,
 		QuickFloor: 2000, ThoroughFloor: 40000,
-		RequiredCounters: []string{"jobs_run_once", "count_pairs_checked", "waitidle_returns_judged", "order_checked_limit1", "enqueue_during_worker_retire", "watchstate_busy_reports", "ConcWorkerLock"},
+		RequiredCounters: []string{"jobs_run_once", "count_pairs_checked", "waitidle_returns_judged", "order_checked_limit1", "enqueue_during_worker_retire", "watchstate_busy_reports", "count_pairs_with_queued_jobs", "ConcWorkerLock"},
 		Rule: "each case builds one ConcurrentQueue (limit 0=unlimited,1,2,3,8; 0-3 initial jobs) and runs 1-4 producers enqueueing batches of 0-5 jobs (nil entries included) whose durations are instant, yielding or gated by the harness, a WatchState observer and 1-3 WaitIdle callers (with error channels delivering nil, an error, or closing); " +
 			"jobs stamp start/end and count themselves; every (queued,running) pair returned or watched is checked; at the final quiescence every job ran exactly once; " +
 			"non-trivial = at least one Enqueue was in progress while a worker was at its retire point (schedule point before the worker takes the lock); distinct = distinct orders of recorded events",
@@ -101,6 +101,10 @@ func concCase(c *mon.Case) {
 
 	checkPair := func(who string, queued, running int) {
 		c.Count("count_pairs_checked", 1)
+		if queued > 0 {
+			// the interesting half of the invariant: somebody was told that jobs are waiting
+			c.Count("count_pairs_with_queued_jobs", 1)
+		}
 		if queued < 0 || running < 0 {
 			c.Violate("conc", "negative-count", "%s reported (queued %d, running %d)", who, queued, running)
 		}
